@@ -266,7 +266,7 @@ def handleCorr (toks : List String) : Option String := do
   let block (sel : DecOut → Nat → Nat → Cx) : List String :=
     (List.range nq).map fun n =>
       let c := get sel n
-      let rA := tab T (corrImpl cxConj Cx.re T d lin c)
+      let rA := tab T (fftCorr cxConj Cx.re T d lin (fun t n k => get sel n t k) n)
       let r := look rA
       " ".intercalate (showF (corrRaw cxConj Cx.re T d lin c 0) :: (List.range T).map fun t => showF (r t))
   pure (" | ".intercalate ([showF margin ++ " " ++ showF (ratToFloat gap) ++ " " ++ (if lin then "1" else "0")]
